@@ -37,6 +37,7 @@ func (it *Interp) newGoroutine() *Goroutine {
 func (it *Interp) spawn(fv *FuncV, args []Value) {
 	g := it.newGoroutine()
 	saved := it.cur
+	it.raceFork(saved, g)
 	it.cur = g
 	it.callValue(g, nil, nil, fv, args, nil)
 	it.cur = saved
@@ -144,6 +145,7 @@ func (it *Interp) chanSend(g *Goroutine, fr *Frame, cv Value, val Value) {
 		panic(goPanic{val: it.runtimeError("send on closed channel"), msg: "send on closed channel"})
 	}
 	it.chanUndo(c)
+	it.raceSync(c)
 	if c.cap > 0 && len(c.buf) < c.cap {
 		c.buf = append(c.buf, val)
 		return
@@ -152,6 +154,7 @@ func (it *Interp) chanSend(g *Goroutine, fr *Frame, cv Value, val Value) {
 	c.sendq = append(c.sendq, item)
 	it.block(g, fmt.Sprintf("chan send #%d", c.ID), func() bool {
 		if item.taken {
+			it.raceAcquire(c) // the receive happens before the send completes
 			return true
 		}
 		if c.closed {
@@ -168,6 +171,7 @@ func (it *Interp) tryRecv(c *ChanV) (Value, bool, bool) {
 	}
 	if len(c.buf) > 0 {
 		it.chanUndo(c)
+		it.raceSync(c)
 		v := c.buf[0]
 		c.buf = c.buf[1:]
 		// move a blocked sender's item into the buffer
@@ -181,12 +185,14 @@ func (it *Interp) tryRecv(c *ChanV) (Value, bool, bool) {
 	}
 	if len(c.sendq) > 0 {
 		it.chanUndo(c)
+		it.raceSync(c)
 		s := c.sendq[0]
 		c.sendq = c.sendq[1:]
 		s.taken = true
 		return s.val, true, true
 	}
 	if c.closed {
+		it.raceAcquire(c)
 		return it.zeroValue(c.T.Elem()), false, true
 	}
 	return nil, false, false
@@ -239,6 +245,7 @@ func (it *Interp) chanClose(c *ChanV) {
 		panic(goPanic{val: it.runtimeError("close of closed channel"), msg: "close of closed channel"})
 	}
 	it.chanUndo(c)
+	it.raceSync(c)
 	c.closed = true
 }
 
@@ -324,6 +331,7 @@ func (it *Interp) selectOp(g *Goroutine, fr *Frame, x *ssa.Select) {
 				panic(goPanic{val: it.runtimeError("send on closed channel"), msg: "send on closed channel"})
 			}
 			it.chanUndo(s.c)
+			it.raceSync(s.c)
 			if s.c.cap > 0 {
 				s.c.buf = append(s.c.buf, s.val)
 			} else {
@@ -390,17 +398,20 @@ func (it *Interp) mutexLock(p PtrV, write bool) {
 	}
 	s := it.syncAt(p)
 	g := it.cur
+	rk := syncKey{p.Obj, p.Off}
 	try := func() bool {
 		if write {
 			if !s.locked && s.readers == 0 {
 				s.locked = true
 				s.owner = g
+				it.raceAcquire(rk)
 				return true
 			}
 			return false
 		}
 		if !s.locked {
 			s.readers++
+			it.raceAcquire(rk)
 			return true
 		}
 		return false
@@ -419,6 +430,7 @@ func (it *Interp) mutexTryLock(p PtrV) bool {
 	if !s.locked && s.readers == 0 {
 		s.locked = true
 		s.owner = it.cur
+		it.raceAcquire(syncKey{p.Obj, p.Off})
 		return true
 	}
 	return false
@@ -426,6 +438,7 @@ func (it *Interp) mutexTryLock(p PtrV) bool {
 
 func (it *Interp) mutexUnlock(p PtrV, write bool) {
 	s := it.syncAt(p)
+	it.raceRelease(syncKey{p.Obj, p.Off})
 	if write {
 		if !s.locked {
 			panic(pathAbort{"gopanic", "fatal error: sync: unlock of unlocked mutex" + it.where()})
@@ -450,6 +463,7 @@ type timerState struct {
 	period  int64
 	ch      *ChanV
 	id      int
+	vc      vclock // race detection: clock of the goroutine that armed the timer
 }
 
 type clockState struct {
@@ -536,6 +550,13 @@ func (it *Interp) advanceTime() bool {
 		if t.active && t.fn != nil && t.when <= it.nowNs() {
 			t.active = false
 			it.spawn(t.fn, nil)
+			if it.race != nil {
+				// the callback is ordered after the arming of the timer, not after
+				// whatever goroutine happened to be current when time advanced
+				g := it.gs[len(it.gs)-1]
+				g.vc = append(vclock(nil), t.vc...)
+				g.vc.set(g.id, 1)
+			}
 			fired = true
 		}
 	}
